@@ -533,7 +533,7 @@ def run(tier: str, only=None) -> core.Result:
         for pref in PREFERRED:
             for ai in range(len(ANSWERS)):
                 # answer times and distractor: full product for the short lists, reduced for length 3
-                times = TIMES if (len(sup) <= 2 or (tier == "thorough" and len(sup) == 3 and pref in (None, sup[-1], "not-in-U"))) else ["now"]
+                times = TIMES if (len(sup) <= 2 or tier == "thorough") else ["now"]
                 for when in (times if ANSWERS[ai]["kind"] != "silence" else ["now"]):
                     for d in (False, True):
                         for tr in (False, True):
@@ -552,7 +552,7 @@ def run(tier: str, only=None) -> core.Result:
                                          "tracked": tr, "write": "unbuffered-stall", "stall": stall})
     out = explorer.explore(RUN, cfgs, fidelity=True)
     sched.absorb(res, f"grid-lists<={2 if tier == 'quick' else 3}", RUN, out, cfgs)
-    mc = [{"ops": list(c)} for n in (1, 2, 3) for c in itertools.product(MC_OPS, repeat=n)
+    mc = [{"ops": list(c)} for n in ((1, 2, 3) if tier == "quick" else (1, 2, 3, 4)) for c in itertools.product(MC_OPS, repeat=n)
           if not (tier == "quick" and n == 3 and c[-1] != "op")]
     out = explorer.explore(RUN_MC, mc, fidelity=True)
     sched.absorb(res, "mcpclient-sequences", RUN_MC, out, mc)
